@@ -23,7 +23,11 @@ DOMAINS = {
 LABELSETS = {
     "int": [0, 1, 2, 3], "negint": [-3, 7, 10, 25], "float": [0.5, 1.5, 2.5, 4.0], "bool": [False, True],
     "str": ["a", "b", "c", "d"], "objstr": ["a", "b", "c", "d"], "strlen": ["no", "yes", "maybe", "x"],
+    # identifiers above 2^53 (neighbours collide once converted to float64), as unsigned and signed 64-bit integers; small unsigned
+    "uint64big": [1580000000000000007, 1580000000000000001, 1580000000000000005, 1580000000000000003],
+    "int64big": [2 ** 60 + 7, 2 ** 60 + 1, -2 ** 60 - 3, 2 ** 60 + 3], "uint8": [200, 3, 255, 7],
 }
+LABELDTYPES = {"objstr": object, "uint64big": "uint64", "int64big": "int64", "uint8": "uint8"}
 
 
 def bounds(tier):
@@ -140,7 +144,7 @@ def _perm(case, bad):
 
     k, ls = case["k"], case["labels"]
     labels = LABELSETS[ls][:k]
-    dtype = object if ls == "objstr" else None
+    dtype = LABELDTYPES.get(ls)
     tab = perm_table(k)
     n = 8
     X = numpy.array([[i, (i * 3) % 5 + 0.5 * (i % 2)] for i in range(n)], dtype=numpy.float64)
@@ -304,7 +308,9 @@ def _perm(case, bad):
     # two wrappers given the transformer by NAME ('permute'), fitted one after the other on different label sets, also nested:
     # each keeps predicting its own labels, with the probabilities of the plain classifier
     others = {"int": [5, 6, 7, 8], "negint": [0, 1, 2, 3], "float": [10.5, 11.5, 12.5, 14.0], "bool": [0, 1],
-              "str": ["p", "q", "r", "s"], "objstr": ["p", "q", "r", "s"], "strlen": ["a", "bb", "ccc", "dddd"]}[ls][:k]
+              "str": ["p", "q", "r", "s"], "objstr": ["p", "q", "r", "s"], "strlen": ["a", "bb", "ccc", "dddd"],
+              "uint64big": [2 ** 63 + 9, 2 ** 63 + 1, 2 ** 63 + 5, 2 ** 63 + 3], "int64big": [5, 2 ** 61, 2 ** 61 + 1, -1],
+              "uint8": [0, 1, 254, 128]}[ls][:k]
     for a in assigns[:3]:
         y = numpy.array([labels[c] for c in a], dtype=dtype)
         y2 = numpy.array([others[(c + 1) % k] for c in a], dtype=dtype)
